@@ -27,6 +27,7 @@ def dispatch (op : String) (args : List String) (impl : String) : Verdict :=
   | "valid" => opValid args impl
   | "flip" => opFlip args impl
   | "flipx" => opFlipX args impl
+  | "glue" => opGlue args impl
   | "hist" => opHist args impl
   | "serde" => opSerde args impl
   | "fragdec" => opFragDec args impl
